@@ -120,9 +120,12 @@ impl BoxedUint {
     /// integers).
     #[inline]
     pub fn from_words(words: impl IntoIterator<Item = Word>) -> Self {
-        Self {
-            limbs: words.into_iter().map(Into::into).collect(),
-        }
+        // `From<Vec<Limb>>` guarantees at least one limb (an empty iterator gives zero).
+        words
+            .into_iter()
+            .map(Limb::from)
+            .collect::<Vec<Limb>>()
+            .into()
     }
 
     /// Create a boxed slice of [`Word`]s (i.e. word-sized unsigned integers) from
